@@ -781,7 +781,8 @@ func init() {
 			for _, ms := range mapGrid(tier) {
 				for ki, k := range kinds {
 					for _, exact := range []bool{false, true} {
-						if tier == "quick" && ms.Alpha != 0.1 && ki != 0 {
+						if tier == "quick" && ki != 0 && !(ms.Alpha == 0.1 && ms.Kind == 'G') {
+							// clearing does not depend on the mapping: the other store kinds once
 							continue
 						}
 						m := ms.New()
